@@ -364,6 +364,7 @@ type c07Case struct {
 	who    int // panicking observer (where >= c07WhereStartIterObserver)
 	td     int // TearDown panics with this payload kind (0 = no)
 	clone  bool // anneal a DeepClone() of the built annealer (what scenario.Runner does)
+	prior  bool // (with clone) an EARLIER clone of the same built annealer has already run to completion (Runner: run 1 before run 2)
 	second bool // observe a SECOND Anneal() of the same instance (currentIteration starts at c0 = what the first left)
 	raw    bool
 	t0, a  float64
@@ -419,6 +420,16 @@ func c07Execute(c c07Case) c07Result {
 		c07ForceRaw(inner, c.t0, c.a)
 	}
 	if c.clone {
+		if c.prior {
+			first := ann.DeepClone()
+			log.temp = func() float64 { return 0 }
+			if p, v := c07Catch(first.Anneal); p {
+				return c07Result{log: log, firstBad: fmt.Sprint("a fault-free Anneal() of a clone panicked: ", v)}
+			}
+			log.entries = nil
+			st.tries, st.cools = 0, 0
+			c07Stats["clone_after_prior_run"]++
+		}
 		ann = ann.DeepClone()
 		wrapper = ann.SolutionExplorer().(*c07Explorer)
 		inner = wrapper.Explorer
@@ -438,6 +449,10 @@ func c07Execute(c c07Case) c07Result {
 	}
 
 	res := c07Result{log: log}
+	if c.prior && math.Float64bits(log.temp()) != math.Float64bits(c.t0) {
+		res.firstBad = fmt.Sprintf("a run cloned from the configured annealer after an earlier cloned run has finished starts at temperature %v, not at the configured starting temperature %v (the temperature after k iterations is then not T0*a^k)", log.temp(), c.t0)
+		return res
+	}
 	if math.Float64bits(log.temp()) != math.Float64bits(c.t0) {
 		res.setupBad = fmt.Sprintf("temperature after set-up is %v, wanted %v", log.temp(), c.t0)
 		return res
@@ -848,6 +863,7 @@ func runC07(args []string) {
 		}
 		c.m = rng.intn(4)
 		c.clone = rng.intn(3) == 0
+		c.prior = c.clone && rng.intn(2) == 0
 	}
 	ns := []uint64{0, 1, 2, 7, 100}
 	allM := false
